@@ -242,7 +242,7 @@ class Window:
         return st
 
 
-def guard_ops(c, truth, cur, sizes, extra=None, canon=None):
+def guard_ops(c, truth, cur, sizes, extra=None, canon=None, wide=()):
     """knowledge about `size - cur` gained when condition `c` evaluates to `truth`.
 
     cur   : symbol of the cursor (as produced by lin(): variable name or shown member expression)
@@ -255,14 +255,14 @@ def guard_ops(c, truth, cur, sizes, extra=None, canon=None):
         return []
     k = c.get("k")
     if k == "un" and c.get("op") == "!":
-        return guard_ops(c["v"], not truth, cur, sizes, extra, canon)
+        return guard_ops(c["v"], not truth, cur, sizes, extra, canon, wide)
     if k == "bin" and c.get("op") == "&&":
         if truth:
-            return guard_ops(c["lhs"], True, cur, sizes, extra, canon) + guard_ops(c["rhs"], True, cur, sizes, extra, canon)
+            return guard_ops(c["lhs"], True, cur, sizes, extra, canon, wide) + guard_ops(c["rhs"], True, cur, sizes, extra, canon, wide)
         return []
     if k == "bin" and c.get("op") == "||":
         if not truth:
-            return guard_ops(c["lhs"], False, cur, sizes, extra, canon) + guard_ops(c["rhs"], False, cur, sizes, extra, canon)
+            return guard_ops(c["lhs"], False, cur, sizes, extra, canon, wide) + guard_ops(c["rhs"], False, cur, sizes, extra, canon, wide)
         return []
     ops = list(extra(c, truth) or []) if extra else []
     cp = cmp_parts(c)
@@ -280,6 +280,10 @@ def guard_ops(c, truth, cur, sizes, extra=None, canon=None):
     if not (len(fr[1]) == 1 and fr[1][0] in sizes and fr[0] == 0 and list(fl[1]).count(cur) == 1):
         return ops
     rest = form(fl[0], [s for s in fl[1] if s != cur])
+    # `wide` symbols are lengths that can be as large as the cursor's type (64-bit values taken from the input): the sum
+    # cur + length can wrap, so a test in ADDITION form establishes nothing about them (only `length > size - cur` does)
+    if any(s in wide for s in rest[1]):
+        return ops
     # cur + rest  op  size
     if not truth:
         op = {"<": ">=", ">=": "<", ">": "<=", "<=": ">", "==": "!=", "!=": "=="}[op]
